@@ -50,7 +50,7 @@ def r1_componentwise_prefix(chk):
                             for v in par.values)
                         chk.ob('C18.R1', '%s.%s/prefix-or-equal(%s)' % (cname, m, norm(a.left)), ok, where(ci.mod, c),
                                'an OID equal to the prefix is also covered by it: `a == p or a.startswith(p + ".")`')
-    chk.floor('C18.R1', 2, 'startswith sites on OIDs')
+    chk.floor('C18.R1', 1, 'startswith sites on OIDs')
 
 
 def r2_attribute_chain(chk):
@@ -141,6 +141,14 @@ def r3_sections_monotone(chk):
                 conj = ir.conjuncts(test[0].test)
                 sup = [c for c in conj if isinstance(c, ast.Call) and isinstance(c.func, ast.Attribute) and
                        c.func.attr == 'issuperset']
+                pref = [c for c in conj if c not in sup]
+                forms = ('%s == %s or %s.startswith(%s + \'.\')' % (oidv, pv, oidv, pv),
+                         '%s.startswith(%s + \'.\') or %s == %s' % (oidv, pv, oidv, pv),
+                         "%s.split('.')[:len(%s.split('.'))] == %s.split('.')" % (oidv, pv, pv),
+                         "(%s + '.').startswith(%s + '.')" % (oidv, pv))
+                chk.ob('C18.R3', 'genIndex/compaction-prefix-test', len(pref) == 1 and norm(pref[0]) in forms,
+                       where(mod, test[0]), 'the covering test must be a component-wise prefix test of the candidate '
+                       'against the kept entry: %s' % [norm(c) for c in pref])
                 ok_sup = len(sup) == 1 and norm(sup[0].func.value) == 'set(%s)' % mv and \
                     norm(sup[0].args[0]).endswith('[%s]' % oidv)
                 chk.ob('C18.R3', 'genIndex/compaction-superset', ok_sup, where(mod, test[0]),
